@@ -1,6 +1,8 @@
 /- Kernel obligation: entries 0xb000..0xbfff of the live float16->code table `Gen.encE2M1` pass `encChk`
-   (one sixteenth of the table per file so that lake checks them in parallel; assembled in Proofs/C11_Tables.lean). -/
-import BitstringModel.Model.C11
+   (one sixteenth of the table per file so that lake checks them in parallel; depends only on the specification and on
+   this table; assembled in Proofs/C11_Tables.lean). -/
+import BitstringModel.Model.C11_Spec
+import BitstringModel.Gen.LutEncE2M1
 namespace BM.C11
-theorem encChunk_E2M1_11 : encChunkOk .e2m1 11 = true := by decide +kernel
+theorem encChunk_E2M1_11 : encChunkOkT Gen.encE2M1 Fmt.e2m1 .saturate 11 = true := by decide +kernel
 end BM.C11
